@@ -108,7 +108,9 @@ def main():
               "  C02-r5A/B (identities over 1 kB pre-hashed; passwords capped at 4096 bytes) -> certificate-sized strings,",
               "  (long string, its digest) pairs and strings sharing a 1-64 kB prefix; C10-r5B (fixed 48-byte password",
               "  expansion) -> frozen custom groups with q of 257-521 bits; C06-r5B (blinding memo without the seeds,",
-              "  visible only after a restart) -> a restart variant in C06.",
+              "  visible only after a restart) -> a restart variant in C06; C03-r5A (`sys.byteorder` instead of a literal",
+              "  'little') -> a big-endian-host seam in C03 (sys.byteorder patched for the run); C03-r5B (hand-rolled HKDF",
+              "  wrong beyond 64 output bytes) is reached by the new q > 384-bit pool groups.",
               "* round-3 change C07-r3A (`_started` set only when start() succeeds, so a start() after a start() whose",
               "  entropy function raised returns the one and only message) was **not kept**: the statement bounds the",
               "  number of messages returned (at most one) and fixes the error only for calls after a message was",
